@@ -26,6 +26,22 @@ const c10Delta = 500 * time.Millisecond
 
 func genC10(r *vc.Rand) *C10Scn {
 	sc := &C10Scn{}
+	// a quarter of the scripts starts with a directed prefix around a pending pairing: the remote
+	// side accepts (or the own side re-registers) only after the local user changed his mind
+	if r.Chance(1, 4) {
+		t := r.Intn(2)
+		ms := func(n int) time.Duration { return time.Duration(n) * time.Millisecond }
+		switch r.Intn(4) {
+		case 0: // D asks, remote undecided, D cancels, remote accepts later
+			sc.Ops = append(sc.Ops, c10Op{"register", t, ms(700)}, c10Op{"cancel", t, ms(300)}, c10Op{"peer-register", t, ms(2500)})
+		case 1:
+			sc.Ops = append(sc.Ops, c10Op{"register", t, ms(700)}, c10Op{"unregister", t, ms(300)}, c10Op{"peer-register", t, ms(2500)})
+		case 2: // remote asks, D undecided (pending), D cancels, remote keeps trying
+			sc.Ops = append(sc.Ops, c10Op{"peer-register", t, ms(700)}, c10Op{"cancel", t, ms(1600)})
+		case 3: // remote asks, D accepts, D unregisters, remote still registered
+			sc.Ops = append(sc.Ops, c10Op{"peer-register", t, ms(700)}, c10Op{"register", t, ms(700)}, c10Op{"unregister", t, ms(2500)})
+		}
+	}
 	n := r.Range(3, 12)
 	gaps := []int{0, 50, 300, 700, 1200, 1600, 2500}
 	down := false
@@ -169,6 +185,8 @@ func evalC10(col *vc.Collector, sc *C10Scn, res c10Result) {
 		var unregSeq int64 = -1
 		autoOn := false
 		dials := 0
+		// a cancel aborts a pending handshake; only an unregister has to close a completed connection
+		lastWasUnregister := false
 		for _, e := range res.Evs {
 			if e.Who != "D" {
 				continue
@@ -186,9 +204,11 @@ func evalC10(col *vc.Collector, sc *C10Scn, res c10Result) {
 			case "api:register":
 				registered, everRegistered = true, true
 				unregRet, unregSeq = -1, -1
+				lastWasUnregister = false
 			case "api:unregister-ret", "api:cancel-ret":
 				registered = false
 				unregRet, unregSeq = e.T, e.Seq
+				lastWasUnregister = e.Kind == "api:unregister-ret"
 			case "tcp-accept":
 				dials++
 				switch {
@@ -243,7 +263,7 @@ func evalC10(col *vc.Collector, sc *C10Scn, res c10Result) {
 			if res.Trusted[ti] {
 				col.Violation(prop, "still-trusted-after-unregister", fmt.Sprintf("target %d: ServiceForSKI().Trusted() is true after unregister/cancel", ti), sc.ID, wit)
 			}
-			if res.LiveOut[ti] > 0 {
+			if res.LiveOut[ti] > 0 && lastWasUnregister {
 				col.Violation(prop, "connection-alive-after-unregister", fmt.Sprintf("target %d: %d live outbound TCP connections after unregister and settling", ti, res.LiveOut[ti]), sc.ID, wit)
 			}
 		}
